@@ -252,6 +252,56 @@ def falsy_zero(fn, mod):
   return out
 
 
+# identifier-like integer fields and event codes whose value 0 is an ordinary value (instrument 0, pitch 0, program 0, step 0 ...)
+ZERO_IS_ORDINARY_FIELDS = ('instrument', 'pitch', 'program', 'voice', 'part', 'control_number', 'quantized_start_step', 'quantized_end_step', 'quantized_step')
+EVENT_CODE_NAMES = ('MELODY_NOTE_OFF', 'MELODY_NO_EVENT', 'NOTE_OFF', 'NO_EVENT')
+
+
+def falsy_domain_zero(fn, mod=None):
+  """A name that is "absent (None) or a value of a domain in which 0 is ordinary" and whose truth is tested.
+  Absent-or-value: a parameter whose default is None, or a local bound to next(..., None) / an `x if c else None` /  `.get(k)`.
+  Domain with an ordinary 0: the same name is compared (== / !=) with one of the fields in ZERO_IS_ORDINARY_FIELDS, or with a
+  melody event code (events are pitches 0..127 or negative codes).  `not name`, `if name`, `name and ...`, `name or ...` then
+  treats instrument 0 / pitch 0 like "not given"."""
+  out = []
+  a = fn.args
+  pos = a.posonlyargs + a.args
+  optional = set(p.arg for p, d in zip(pos[len(pos) - len(a.defaults):], a.defaults) if isinstance(d, ast.Constant) and d.value is None)
+  optional |= set(p.arg for p, d in zip(a.kwonlyargs, a.kw_defaults) if isinstance(d, ast.Constant) and d.value is None)
+  for st in U.walk_stmts(fn, into_nested=False):
+    if isinstance(st, ast.Assign) and len(st.targets) == 1 and isinstance(st.targets[0], ast.Name):
+      v = st.value
+      if (isinstance(v, ast.Call) and dotted(v.func) == 'next' and len(v.args) == 2 and isinstance(v.args[1], ast.Constant) and v.args[1].value is None) or \
+         (isinstance(v, ast.IfExp) and any(isinstance(x, ast.Constant) and x.value is None for x in (v.body, v.orelse))):
+        optional.add(st.targets[0].id)
+  params = set(p.arg for p in pos + a.kwonlyargs)
+  ordinary = {}
+  for c in ast.walk(fn):
+    if isinstance(c, ast.Compare) and len(c.ops) == 1 and isinstance(c.ops[0], (ast.Eq, ast.NotEq)):
+      for x, y in ((c.left, c.comparators[0]), (c.comparators[0], c.left)):
+        # a parameter that is matched against such a field is a value of that domain whether or not it may also be None
+        if isinstance(x, ast.Name) and (x.id in optional or x.id in params):
+          if isinstance(y, ast.Attribute) and y.attr in ZERO_IS_ORDINARY_FIELDS:
+            ordinary[x.id] = 'it is compared with .%s, and %s 0 is an ordinary %s' % (y.attr, y.attr, y.attr)
+          elif x.id in optional and (dotted(y) or '').split('.')[-1] in EVENT_CODE_NAMES:
+            ordinary[x.id] = 'it is compared with %s, so it is a melody event, and pitch 0 is an ordinary event' % norm_text(y)
+  pm = U.parents(fn)
+  for n in ast.walk(fn):
+    if not (isinstance(n, ast.Name) and isinstance(n.ctx, ast.Load) and n.id in ordinary):
+      continue
+    par = pm.get(id(n))
+    tested = (isinstance(par, ast.UnaryOp) and isinstance(par.op, ast.Not)) or (isinstance(par, ast.BoolOp) and any(v is n for v in par.values)) or \
+        (isinstance(par, (ast.If, ast.While, ast.IfExp)) and par.test is n)
+    if isinstance(par, ast.BoolOp) and par.values[-1] is n and not isinstance(pm.get(id(par)), (ast.If, ast.While, ast.IfExp, ast.UnaryOp, ast.BoolOp, ast.comprehension)):
+      tested = False      # `x or y` / `c and x` as a value: the last operand is returned, not tested
+    if isinstance(par, ast.comprehension) and any(f is n for f in par.ifs):
+      tested = True
+    if tested:
+      out.append(Site('falsy-domain-zero', par if isinstance(par, ast.expr) else n, BAD,
+                      '%s tests the truth of %s (None / empty stands for "not given"); %s: the value 0 is treated as "not given"' % (norm_text(par)[:70] if isinstance(par, ast.expr) else 'if ' + n.id, n.id, ordinary[n.id])))
+  return out
+
+
 NARROW = ('uint8', 'int8', 'uint16', 'int16')
 
 
@@ -485,6 +535,9 @@ SELF_EXAMPLES = [
     ('narrowing-cast', 'def f(index):\n  return np.unpackbits(np.array([index]).astype(np.uint8))\n', BAD),
     ('narrowing-cast', 'def f(index):\n  return np.array([index % 12]).astype(np.uint8)\n', OK),
     ('stale-sibling', 'def f(m):\n  t = 0.0\n  prev, scale = m.rows[0]\n  for tick, s in m.rows:\n    t += (tick - prev) * scale\n    prev = tick\n  return t\n', BAD),
+    ('falsy-domain-zero', 'def f(notes, instrument=None):\n  return [n for n in notes if not instrument or n.instrument == instrument]\n', BAD),
+    ('falsy-domain-zero', 'def f(notes, instrument=None):\n  return [n for n in notes if instrument is None or n.instrument == instrument]\n', None),
+    ('falsy-domain-zero', 'def f(notes, limit=None):\n  return [n for n in notes if not limit or n.end_time < limit]\n', None),
     ('stale-sibling', 'def f(m):\n  t = 0.0\n  prev, scale = m.rows[0]\n  for tick, s in m.rows:\n    t += (tick - prev) * scale\n    prev, scale = tick, s\n  return t\n', OK),
 ]
 
@@ -507,6 +560,7 @@ DETECT = {
     'falsy-zero': falsy_zero,
     'narrowing-cast': lambda fn, mod: narrowing_casts(fn),
     'stale-sibling': lambda fn, mod: stale_siblings(fn),
+    'falsy-domain-zero': falsy_domain_zero,
 }
 DETECT_FI = {'wrapper-default': wrapper_defaults}      # detectors that need the FuncInfo (module context)
 
